@@ -1,6 +1,6 @@
 (* Model/SearchParams.v — URLSearchParams (url/urlsearchparams.go, url/nodeurl.go, url/escape.go).
    Strings are byte lists (Go strings). Definitions only. *)
-From GN Require Import Common.Base Gen.UrlTables.
+From GN Require Import Common.Base Gen.UrlTables Model.Codecs.
 
 Definition pair := (zs * zs)%type.
 Definition plist := list pair.
@@ -169,7 +169,7 @@ Definition set_as_written (name value : zs) (arr : plist) : plist :=
   let '(arr', j, found) := set_loop name value arr (length arr) 0 0 false in
   if found then firstn j arr' else arr ++ [(name, value)].
 
-(* sort.Stable by strings.Compare on names: modelled by a stable insertion sort *)
+(* sort.Stable on names: modelled by a stable insertion sort; zs_ltb is the lexicographic order of two lists of numbers ... *)
 Fixpoint zs_ltb (a b : zs) : bool :=
   match a, b with
   | _, [] => false
@@ -177,10 +177,17 @@ Fixpoint zs_ltb (a b : zs) : bool :=
   | x :: a', y :: b' => (x <? y) || ((x =? y) && zs_ltb a' b')
   end.
 
+(* ... compared as the WHATWG sort compares them: by UTF-16 code units (compareCodeUnits in nodeurl.go, fix 83a5a8a). That is the
+   byte order of the UTF-8 names except between a supplementary character (two surrogates, D800..DFFF) and U+E000..U+FFFF. *)
+Definition units_of_cp (c : Z) : list Z :=
+  if c <? 65536 then [c] else [55296 + (c - 65536) / 1024; 56320 + (c - 65536) mod 1024].
+Definition units (name : zs) : list Z := flat_map units_of_cp (utf8_decode name).
+Definition sort_key (p : pair) : list Z := units (fst p).
+
 Fixpoint insert_stable (p : pair) (l : plist) : plist :=
   match l with
   | [] => [p]
-  | q :: r => if zs_ltb (fst q) (fst p) then q :: insert_stable p r else p :: l
+  | q :: r => if zs_ltb (sort_key q) (sort_key p) then q :: insert_stable p r else p :: l
   end.
 
 Definition stable_sort (l : plist) : plist := fold_right insert_stable [] l.
